@@ -125,23 +125,27 @@ def run_history(h):
             out.append({"pid": pool_ix[wp.id], "workers": ws})
         return out
 
+    def rnum(r):
+        return [int(r.name[1:]), rid_back(r.id)]
+
     def getters():
+        """every getter of the live cluster and of the tasks, as nested integers"""
         g = []
         for wp in worker_pools.worker_pools:
-            g.append(["pool", pool_ix[wp.id], sorted(tid_of.get(t.id, -1) for t in wp.get_placed_tasks()), wp.is_full()])
+            g.append([1, pool_ix[wp.id], sorted(tid_of.get(t.id, -1) for t in wp.get_placed_tasks()), int(wp.is_full())])
             for w in wp.workers:
-                g.append(["worker", worker_ix[w.id],
-                          [[r.name, r.id, q] for r, q in w.resources._resource_vector.items()],
+                g.append([2, worker_ix[w.id],
+                          [rnum(r) + [q] for r, q in w.resources._resource_vector.items()],
                           sorted(tid_of.get(t.id, -1) for t in w.get_placed_tasks()),
                           sorted(mid_of_profile[p.id] for p in w.get_available_profiles()),
                           sorted([mid_of_profile[p.id], w.is_available(p).to(EventTime.Unit.US).time] for p in w.get_pending_profiles()),
-                          sorted([tid_of.get(t.id, -1), sorted([r.name, r.id, q] for r, q in w.get_allocated_resources(t))]
+                          sorted([tid_of.get(t.id, -1), sorted(rnum(r) + [q] for r, q in w.get_allocated_resources(t))]
                                  for t in w.get_placed_tasks()),
-                          len(w._placed_batches), w.is_full()])
+                          len(w._placed_batches), int(w.is_full())])
         for tid, t in tasks.items():
-            g.append(["task", tid, t.state.value, t.deadline.time, t.release_time.time,
+            g.append([3, tid, t.state.value, t.deadline.time, t.release_time.time,
                       -2 if t._remaining_time is None else t._remaining_time.time,
-                      None if t.worker_pool_id is None else pool_ix[t.worker_pool_id],
+                      -3 if t.worker_pool_id is None else pool_ix[t.worker_pool_id],
                       -2 if t.scheduling_time is None else t.scheduling_time.time, t.start_time.time, t.completion_time.time])
         return g
 
@@ -209,8 +213,7 @@ def run_history(h):
         rec["load_view"] = load_log[n_ld] if len(load_log) > n_ld else None
         after = getters()
         rec["unchanged"] = before == after
-        if before != after:
-            rec["changed"] = [[b, a] for b, a in zip(before, after) if b != a][:4]
+        rec["getters"] = [before, after]
         rec["task_states"] = {str(tid): t.state.value for tid, t in tasks.items()}
         steps.append(rec)
         if res is None:
